@@ -858,7 +858,9 @@ Proof.
       [|by apply post_same].
     destruct (sorted_finish ord k a s script e x Hinv Hoff Hfs) as (t & outs & -> & Hsf).
     rewrite Hsf. apply post_set; [done|done|by apply reg_inv_set_ticks|done|intros []].
-  - (* OClear *) apply post_set; [done|done|by apply reg_inv_clear|done|cost_lin Hr].
+  - (* OClear *)
+    rewrite (clone_cbs_nofuse (clear s) _ (reg_inv_fuse _ _ _ (reg_inv_clear _ _ _ Hinv))).
+    apply post_set; [done|done|by apply reg_inv_clear|done|cost_lin Hr].
   - (* OIntoSortedVec SMin *) destruct k; [by apply post_same|].
     destruct (dpop_all_ok ord true _ s [] Hinv (Nat.lt_succ_diag_r _)) as (l & t & Heq).
     unfold into_sorted_vec_dir. rewrite Heq.
